@@ -10,9 +10,9 @@ rm -f ../coq/Extract.vo ../coq/Extract.glob ../coq/.Extract.aux ../coq/Extract.v
 files=$(cd gen && ocamlfind ocamldep -sort *.ml *.mli)
 srcs=""
 for f in $files; do srcs="$srcs gen/$f"; done
-ocamlfind ocamlopt -w -a -I gen -c $srcs conv.ml
+ocamlfind ocamlopt -w -a -I gen -c $srcs conv.ml pparse.ml
 objs=""
 for f in $files; do case $f in *.ml) objs="$objs gen/${f%.ml}.cmx";; esac; done
 for d in drv_*.ml; do
-  ocamlfind ocamlopt -w -a -I gen $objs conv.cmx $d -o bin/${d%.ml}
+  ocamlfind ocamlopt -w -a -I gen $objs conv.cmx pparse.cmx $d -o bin/${d%.ml}
 done
